@@ -14,6 +14,7 @@ package fdpool
 
 import (
 	"container/list"
+	"github.com/go-git/go-git/v6/internal/simhook"
 	"sync"
 )
 
@@ -145,6 +146,7 @@ func (p *Pool) Touch(m Member, h *Handle) {
 	if p.capacity <= 0 || m == nil || h == nil {
 		return
 	}
+	simhook.BeforeLock(&p.mu)
 	p.mu.Lock()
 	defer p.mu.Unlock()
 
@@ -206,6 +208,7 @@ func (p *Pool) Touch(m Member, h *Handle) {
 			// here so the asymmetry doesn't read as an oversight.
 			p.mu.Unlock()
 			err := victimEnt.m.ReleaseNow()
+			simhook.BeforeLock(&p.mu)
 			p.mu.Lock()
 			if err != nil {
 				p.evictionFailures++
@@ -225,6 +228,7 @@ func (p *Pool) Forget(h *Handle) {
 	if p.capacity <= 0 || h == nil {
 		return
 	}
+	simhook.BeforeLock(&p.mu)
 	p.mu.Lock()
 	defer p.mu.Unlock()
 
@@ -239,6 +243,7 @@ func (p *Pool) Forget(h *Handle) {
 // Counters are monotonic; subtraction across two Stats snapshots
 // yields per-interval rates.
 func (p *Pool) Stats() Stats {
+	simhook.BeforeLock(&p.mu)
 	p.mu.Lock()
 	defer p.mu.Unlock()
 	var active int
